@@ -287,6 +287,7 @@ def history(seed: int, nsteps: int = 10, sources=None, forced=None) -> list:
         added: dict = {}
         removed: list = []
         deleted_any = False
+        gone: set = set()      # parts deleted and not added again: a later read must still find them absent
 
         def body_handle(fresh: bool):
             nonlocal_dummy = None  # noqa: F841
@@ -320,6 +321,7 @@ def history(seed: int, nsteps: int = 10, sources=None, forced=None) -> list:
                                 + (["merge", "merge", "del_part", "save"] if merging else [])
                                 + (["retype", "save", "reopen"] if retyping else []))
             ev = {"op": op}
+            post_read = None
             try:
                 if op == "edit":
                     which = rng.choice(["content.xml", "content.xml", "styles.xml", "meta.xml"])
@@ -377,6 +379,9 @@ def history(seed: int, nsteps: int = 10, sources=None, forced=None) -> list:
                     deleted_any = True
                     ev["part"] = name
                     known.discard(name)
+                    gone.add(name)
+                    if rng.random() < 0.7:
+                        post_read = name       # asked for straight away: it is gone, and asking does not bring it back
                 elif op == "retype":
                     mt = want.get("mt") or rng.choice(ODF_TYPES)
                     doc.mimetype = mt
@@ -492,6 +497,7 @@ def history(seed: int, nsteps: int = 10, sources=None, forced=None) -> list:
                     ev["target"] = tkey
                     names = [n for n in doc.get_parts() if not n.endswith("/") and n != MANIFEST]
                     known = set(names)
+                    gone = set()
                     ev["view"] = doc_view(doc, names, ids)
                     ev["mf_view"] = [str(p) for p in doc.manifest.get_paths()]
                 elif op == "clone":
@@ -512,8 +518,9 @@ def history(seed: int, nsteps: int = 10, sources=None, forced=None) -> list:
                     saved, smf, smf_files, _ok = project_package(parts, ids)
                     ev.update(saved=saved, smf=smf, smf_files=smf_files)
                 else:  # read
-                    ev["view"] = doc_view(doc, rng.sample(sorted(known), min(len(known), 3)) + (["content.xml"] if rng.random() < 0.5 else []), ids,
-                                          shortcut=rng.random() < 0.5)
+                    absent = sorted(gone - known)
+                    ev["view"] = doc_view(doc, rng.sample(sorted(known), min(len(known), 3)) + (["content.xml"] if rng.random() < 0.5 else [])
+                                          + rng.sample(absent, min(len(absent), 2)), ids, shortcut=rng.random() < 0.5)
                 if "twin" in handles and rng.random() < 0.5 and op not in ("clone", "reopen"):
                     ev["twin_view"] = doc_view(handles["twin"], sorted(set(handles["twin_names"]) | known), ids)
             except Exception as ex:  # noqa: BLE001
@@ -525,6 +532,8 @@ def history(seed: int, nsteps: int = 10, sources=None, forced=None) -> list:
                 handles.pop("twin", None)
                 handles.pop("twin_names", None)
             events.append(ev)
+            if post_read is not None:
+                events.append({"op": "read", "view": doc_view(doc, [post_read], ids), "after_delete": True})
     finally:
         shutil.rmtree(tmp, ignore_errors=True)
     return events
